@@ -141,6 +141,20 @@ func (g *G) stmt(bd int) []hs.Stmt {
 		if g.chance("catchMore", 40) {
 			cb.Stmts = append(cb.Stmts, g.stmt(bd-1)...)
 		}
+		// leaving the handler through a loop exit or a return (handlers must be unwound correctly)
+		if !(g.inExpr > 0 && g.c.off("exit-pending")) && g.chance("catchExit", 30) {
+			switch {
+			case g.inLoop > 0 && g.chance("catchBreak", 50):
+				cb.Stmts = append(cb.Stmts, hs.Break{})
+				g.feat("break-in-catch")
+			case g.inLoop > 0:
+				cb.Stmts = append(cb.Stmts, hs.Continue{})
+				g.feat("continue-in-catch")
+			case g.retT != nil && g.retT.K == hs.KNull:
+				cb.Stmts = append(cb.Stmts, hs.Return{})
+				g.feat("return-in-catch")
+			}
+		}
 		g.pop()
 		tr.Catch = cb
 		g.feat("try-stmt")
@@ -316,7 +330,17 @@ func (g *G) loopStmt(bd, d int) []hs.Stmt {
 		v := g.fresh("i")
 		var iter hs.Expr
 		var vt hs.Type
-		if g.chance("forList", 45) {
+		if g.c.Strings && !g.c.off("for-str") && g.chance("forStr", 12) {
+			// iterate the characters of a string (a literal or a variable, so that one value can
+			// be iterated several times, also after an early exit)
+			if vs := g.varsOf(hs.TStr, false); len(vs) > 0 && g.chance("forStrVar", 60) {
+				iter = hs.Ident{Name: vs[g.pick("forStrVarPick", len(vs))].name, T: hs.TStr}
+			} else {
+				iter = g.strLit()
+			}
+			vt = hs.TStr
+			g.feat("for-str")
+		} else if g.chance("forList", 45) {
 			et := g.scalarType()
 			lt := hs.TList(et)
 			if vs := g.varsOf(lt, false); len(vs) > 0 && g.chance("forListVar", 60) {
@@ -336,7 +360,22 @@ func (g *G) loopStmt(bd, d int) []hs.Stmt {
 		g.declare(varInfo{name: v, t: vt, noWrite: true})
 		body := g.block(bd-1, nb)
 		g.pop()
-		return []hs.Stmt{hs.For{Var: v, Iter: iter, Body: body}}
+		out := []hs.Stmt{hs.For{Var: v, Iter: iter, Body: body}}
+		if id, isVar := iter.(hs.Ident); isVar && !(g.inExpr > 0 && g.c.off("exit-pending")) && g.chance("iterTwice", 40) {
+			// leave the first loop early, then iterate the same value again: the iteration state of a
+			// value must not survive a loop (snapshot semantics)
+			early := hs.ExprStmt{X: &hs.If{Cond: g.expr(hs.TBool, 1), Then: &hs.Block{Stmts: []hs.Stmt{hs.Break{}}, T: hs.TNull}, T: hs.TNull}}
+			f0 := out[0].(hs.For)
+			f0.Body.Stmts = append([]hs.Stmt{early}, f0.Body.Stmts...)
+			v2 := g.fresh("j")
+			pr := hs.ExprStmt{X: hs.Call{Fn: hs.Ident{Name: "println"}, Args: []hs.Expr{hs.StrLit{V: "again"}, hs.Ident{Name: v2, T: vt}}, T: hs.TNull}}
+			if !printable(vt) {
+				pr = hs.ExprStmt{X: hs.Call{Fn: hs.Ident{Name: "println"}, Args: []hs.Expr{hs.StrLit{V: "again"}}, T: hs.TNull}}
+			}
+			out = append(out, hs.For{Var: v2, Iter: id, Body: &hs.Block{Stmts: []hs.Stmt{pr}, T: hs.TNull}})
+			g.feat("iterate-twice")
+		}
+		return out
 	case 2, 3:
 		// let w = 0; while w < k { w += 1; body }
 		w := g.fresh("w")
@@ -529,6 +568,23 @@ func (g *G) fnDef(name string, isMain bool) hs.FnDef {
 	}
 	if f.Ret.K != hs.KNull {
 		body.Tail = g.expr(f.Ret, g.c.MaxDepth)
+		// a function that returns from inside a try block (its handler must be gone afterwards)
+		if g.c.Throws && !g.c.Pure && g.chance("returnFromTry", 20) {
+			ev := g.fresh("e")
+			ret := hs.ExprStmt{X: &hs.If{Cond: g.expr(hs.TBool, 1), Then: &hs.Block{Stmts: []hs.Stmt{hs.Return{X: g.expr(f.Ret, 1)}}, T: hs.TNull}, T: hs.TNull}}
+			inner := &hs.Block{Stmts: []hs.Stmt{ret}, Tail: body.Tail, T: f.Ret}
+			if g.chance("nestedTry", 40) {
+				ev2 := g.fresh("e")
+				inner = &hs.Block{T: f.Ret, Tail: &hs.Try{Body: inner, CatchVar: ev2, Catch: &hs.Block{T: f.Ret, Tail: g.literal(f.Ret)}, T: f.Ret}}
+			}
+			body.Tail = &hs.Try{Body: inner, CatchVar: ev, Catch: &hs.Block{T: f.Ret, Tail: g.literal(f.Ret)}, T: f.Ret}
+			g.feat("return-from-try")
+		}
+	}
+	if isMain && g.c.Throws && !g.c.off("uncaught-throw") && g.chance("tailThrow", 15) {
+		// an exception nothing encloses: must end the run as an uncaught throw, whatever ran before
+		body.Stmts = append(body.Stmts, hs.ExprStmt{X: hs.Call{Fn: hs.Ident{Name: "throw"}, Args: []hs.Expr{hs.StrLit{V: "tail"}}, T: hs.TNever}})
+		g.feat("tail-throw")
 	}
 	f.Body = body
 	if !isMain {
